@@ -217,6 +217,10 @@ def run(ck, prog, ctx):
         b = prog.body("ontology::comparison::AnnotationDelta::" + nm)
         if b is None or ad is None:
             continue
+        # whether a record changed is decided by AnnotationDelta::delta alone: no other exit (e.g. an `==` on the records, which
+        # compares ids only) may answer "unchanged" first
+        from engines import check_required_steps
+        check_required_steps(ck, "COVER", prog, b, [("decide through AnnotationDelta::delta", lambda t, _ad=ad: t.callee.res == _ad.id)])
         for bi, t in b.calls():
             if t.callee.res == ad.id:
                 a0 = params_of(pv.of_operand(b, t.args[0]), b.id)
@@ -230,3 +234,17 @@ def run(ck, prog, ctx):
     ck.rule("GETTER", "an accessor `f()` / `f_mut()` of a struct with a field `f` (or its documented alias) derives its result from that field (DESIGN 3.9)")
     from engines import check_getters
     check_getters(ck, "GETTER", prog, r"^src/ontology/comparison\.rs$", floor=8)
+
+    # ---- records and terms implement `==` by ID ONLY: using it inside the comparison module answers "same id", never "unchanged"
+    idcmp = []
+    n_cmp = 0
+    for b_ in prog.production():
+        if b_.file != "src/ontology/comparison.rs" or b_.kind not in ("Fn", "AssocFn", "Closure"):
+            continue
+        for bi_, t_ in b_.calls():
+            if t_.callee.trait == "std::cmp::PartialEq" and t_.callee.method in ("eq", "ne"):
+                n_cmp += 1
+                ty = (t_.callee.def_args or "") + " " + (t_.callee.name or "")
+                if re.search(r"<(&)*(annotations::gene::Gene|annotations::omim_disease::OmimDisease|annotations::orpha_disease::OrphaDisease|term::hpoterm::HpoTerm<[^>]*>|term::internal::HpoTermInternal) as std::cmp::PartialEq", ty):
+                    idcmp.append((b_, t_))
+    ck.ob("COVER", "no-identity-equality", not idcmp, "the comparison module %s" % ("never uses the id-only `==` of records / terms to decide whether something changed (%d equality calls examined)" % n_cmp if not idcmp else "compares whole records with `==` in %s (line %s): that operator looks at the id only, so two records with the same id are always 'equal'" % (idcmp[0][0].short, idcmp[0][1].line)), where=idcmp[0][0].where(idcmp[0][1].line) if idcmp else None)
